@@ -1636,7 +1636,8 @@ pub fn tracker_faults(seed: u64) -> Plan {
     // a crowd of seeders finds the client during the outage: by the time the tracker answers,
     // every connection slot is taken (they never unchoke, so the client stays interested)
     if failures >= 2 && r.chance(1, 8) {
-        let m = r.range(9, 16) as usize;
+        // (sometimes more of them than the client's command channel holds)
+        let m = if r.chance(1, 5) { r.range(30, 80) } else { r.range(9, 16) } as usize;
         let mut t = r.range(0, 300);
         for j in 0..m {
             let mut c = base_peer(k + 1 + j, n);
